@@ -151,23 +151,32 @@ def b_roundtrip(ctx):
             for ids in ('contiguous', 'gapped', 'permuted', 'large'):
                 for order in ('blocks', 'interleaved'):
                     for with_z in ((True, False) if dim == 2 else (True,)):
-                        combos.append((dim, types, ids, order, with_z))
+                        combos.append((dim, types, ids, order, with_z, 'plain'))
+            # the unit and origin of the coordinates are the user's: a micro part in metres (coordinates of the order 1e-9) and a thin layer far from the origin
+            # (z extent 2e-3 at z = 250) are three-dimensional meshes like any other (added after seed C20-e decided "all z equal" with np.allclose)
+            if dim == 3:
+                for coords in ('micro', 'thin-layer'):
+                    combos.append((dim, types, 'contiguous', 'blocks', True, coords))
     sizes = [5] if ctx.tier == 'quick' else [1, 5, 12]
     ctx.bound = (f"{len(combos)} configurations (2D tri3/tri6/quad4/quad8 with and without z column, 3D tet4/tet10/wedge6/wedge15/hex8/hex20, single and mixed types; ids contiguous / gapped / "
                  f"permuted / near 2^31; rows element-wise or interleaved) x element counts {sizes}; node variables DISPLACEMENT and a custom one, element-nodal STRESS_CAUCHY and a custom one, two states, "
                  "one node set and one element set")
     ctx.rule = "each configuration is one case; non-trivial = anything but a single element type with ids 1..N in file order"
     ctx.exhaustive = True
-    for (dim, types, ids, order, with_z), n_el in itertools.product(combos, sizes):
+    for (dim, types, ids, order, with_z, coords), n_el in itertools.product(combos, sizes):
         if not ctx.mine():
             continue
         seed = 7 + n_el
         rng = np.random.default_rng(seed)
         mesh = make_mesh(rng, dim, types, n_el, ids=ids, order=order, with_z=with_z)
+        if coords == 'micro':
+            mesh[['x', 'y', 'z']] = mesh[['x', 'y', 'z']] * 2e-10
+        elif coords == 'thin-layer':
+            mesh['z'] = mesh['z'] * 1e-4 + 250.0
         full = add_fields(rng, mesh)
         cfg = f"{dim}D types {types} ids {ids} rows {order}" + ('' if with_z else ' no z column') + f" ({n_el} elements)"
-        tag = ('mixed-types' if len(types) > 1 else 'single-type') + f':ids-{ids}:rows-{order}' + ('' if with_z else ':no-z')
-        ctx.case(len(types) > 1 or ids != 'contiguous' or order != 'blocks', key=(dim, tuple(types), ids, order, with_z, n_el))
+        tag = ('mixed-types' if len(types) > 1 else 'single-type') + f':ids-{ids}:rows-{order}' + ('' if with_z else ':no-z') + ('' if coords == 'plain' else f':coordinates-{coords}')
+        ctx.case(len(types) > 1 or ids != 'contiguous' or order != 'blocks' or coords != 'plain', key=(dim, tuple(types), ids, order, with_z, n_el, coords))
         path = scratch_file()
         try:
             ex = vmap.VMAPExport(path)
@@ -176,6 +185,11 @@ def b_roundtrip(ctx):
             except Exception as e:   # noqa
                 ctx.fail(f'C20:export-geometry-raises:{dim}D:{tag}', f'add_geometry raises {type(e).__name__}: {str(e)[:160]} for a valid mesh: {cfg}', repro(dim, types, n_el, ids, order, with_z, seed))
                 continue
+            with __import__('h5py').File(path, 'r') as f_:
+                tnames = {int(r_['myIdentifier'][0]): (r_['myTypeName'][0].decode() if isinstance(r_['myTypeName'][0], bytes) else str(r_['myTypeName'][0])) for r_ in f_['/VMAP/SYSTEM/ELEMENTTYPES'][()]}
+                used = {tnames.get(int(t_), '?') for t_ in f_['/VMAP/GEOMETRY/g/ELEMENTS/MYELEMENTS']['myElementType'][:, 0]}
+            if not all(f'{dim}D' in t_ for t_ in used):
+                ctx.fail(f'C20:element-type-dimension:{dim}D:{tag}', f'a {dim}D mesh is stored with the element types {sorted(used)}: {cfg}', repro(dim, types, n_el, ids, order, with_z, seed))
             state_vars = [('STATE-1', 'DISPLACEMENT', ['dx', 'dy', 'dz'], False), ('STATE-1', 'STRESS_CAUCHY', ['S11', 'S22', 'S33', 'S12', 'S13', 'S23'], False),
                           ('STATE-2', 'TEMP', ['T'], True), ('STATE-2', 'HEATFLUX', ['Q1', 'Q2'], True)]
             try:
